@@ -2,49 +2,50 @@ package main
 
 import (
 	"fmt"
+	"os"
+	"path/filepath"
 
 	"verif/corpus"
+	"verif/mc"
 
-	"github.com/go-text/typesetting/font"
 	ot "github.com/go-text/typesetting/font/opentype"
-	"github.com/go-text/typesetting/font/opentype/tables"
+	"github.com/go-text/typesetting/fontscan"
 )
 
 func main() {
-	f := corpus.Get("ot/common/NotoSansCJKjp-VF.otf")
+	f := corpus.Get("hb/harfbuzz_reference/in-house/fonts/SimpArabicTest.ttf")
 	ld := corpus.Loaders(f)[0]
-	ft, err := font.NewFont(ld)
-	fmt.Println(err, len(ft.GSUB.Lookups), len(ft.GPOS.Lookups))
-	raw, _ := ld.RawTable(ot.MustNewTag("GPOS"))
-	lay, _, err := tables.ParseLayout(raw)
-	fmt.Println("layout", err, len(lay.LookupList.Lookups))
-	for i, lk := range lay.LookupList.Lookups {
-		sts, err := lk.AsGPOSLookups()
-		if err != nil {
-			fmt.Println(i, err)
+	var tbs []ot.Table
+	for _, t := range ld.Tables() {
+		if raw, err := ld.RawTable(t); err == nil && t != ot.MustNewTag("OS/2") {
+			tbs = append(tbs, ot.Table{Tag: t, Content: raw})
+		}
+	}
+	data := ot.WriteTTF(tbs)
+	root, _ := os.MkdirTemp("/var/tmp", "dbg")
+	defer os.RemoveAll(root)
+	scan := func(dir string) {
+		idx, err := fontscan.VerifScan(nil, fontscan.VerifIndex{}, dir)
+		fmt.Println(err)
+		for _, f := range idx.Files() {
+			for _, fp := range f.Footprints {
+				fmt.Println(filepath.Base(f.Path), fp.Family, len(fp.Scripts), fp.Runes.Len(), mc.DeepHash(&fp.Runes))
+			}
+		}
+	}
+	os.MkdirAll(root+"/a", 0o755)
+	os.WriteFile(root+"/a/b_font.ttf", data, 0o644)
+	scan(root + "/a")
+	n := 0
+	for _, p := range corpus.Files() {
+		if len(p.Data) > 64<<10 || n > 12 {
 			continue
 		}
-		for j, st := range sts {
-			if ext, ok := st.(tables.ExtensionPos); ok {
-				st, err = ext.Resolve()
-				if err != nil {
-					fmt.Println(i, j, "resolve", err)
-					continue
-				}
-			}
-			switch s := st.(type) {
-			case tables.SinglePos:
-				err = s.Sanitize()
-			case tables.PairPos:
-				err = s.Sanitize()
-			case tables.MarkBasePos:
-				err = s.Sanitize()
-			case tables.MarkLigPos:
-				err = s.Sanitize()
-			}
-			if err != nil {
-				fmt.Printf("lookup %d subtable %d %T: %v\n", i, j, st, err)
-			}
-		}
+		n++
+		d := fmt.Sprintf("%s/p%d", root, n)
+		os.MkdirAll(d, 0o755)
+		os.WriteFile(d+"/a_font"+filepath.Ext(p.Name), p.Data, 0o644)
+		os.WriteFile(d+"/b_font.ttf", data, 0o644)
+		scan(d)
 	}
 }
